@@ -205,13 +205,13 @@ pub fn class_for(flag: &str) -> Vec<String> {
         "input-format" | "format" => v(&["auto", "semver", "pep440", "zerv", "bogus", "", "AUTO"]),
         "output-format" => v(&["semver", "pep440", "zerv", "bogus", ""]),
         "directory" => v(PATHS),
-        "output-template" | "template" => v(TEMPLATES),
-        "output-prefix" => v(&["v", "", "release-", "é", "{{ major }}", "\n", "v v"]),
+        "output-template" | "template" => [v(TEMPLATES), long_values()].concat(),
+        "output-prefix" => [v(&["v", "", "release-", "é", "{{ major }}", "\n", "v v"]), long_values()].concat(),
         "schema" => v(SCHEMAS),
         "schema-ron" => v(SCHEMA_RONS),
-        "tag-version" => v(VERSIONS),
-        "bumped-branch" => v(TEXTS),
-        "bumped-commit-hash" => v(HASHES),
+        "tag-version" => [v(VERSIONS), long_values()].concat(),
+        "bumped-branch" => [v(TEXTS), long_values()].concat(),
+        "bumped-commit-hash" => [v(HASHES), long_values()].concat(),
         "custom" => v(CUSTOMS),
         "core" | "extra-core" | "build" | "bump-core" | "bump-extra-core" | "bump-build" => v(INDEX_VALUES),
         "pre-release-label" | "bump-pre-release-label" => v(LABELS),
@@ -293,11 +293,32 @@ pub fn systematic() -> Vec<Vec<String>> {
             out.push(s(&["render", "1.2.3", "--output-template", &format!("{{{{ sanitize(value='x/{val}', preset='pep440', max_length={len}) }}}}")]));
         }
     }
+    for lv in long_values() {
+        out.push(s(&["check", &lv]));
+        out.push(s(&["check", &lv, "--format", "semver"]));
+        out.push(s(&["check", &lv, "--format", "pep440"]));
+        for inf in ["auto", "semver", "pep440", "zerv"] {
+            out.push(s(&["render", &lv, "--input-format", inf]));
+        }
+    }
     for t in TEMPLATES {
         out.push(s(&["render", "1.2.3-alpha.4+b.5", "--output-template", t]));
         out.push(s(&["render", "7!1.2rc3.post4.dev5+local.6", "--input-format", "pep440", "--output-template", t]));
     }
     out
+}
+
+/// long values (plain, and with multi-byte characters at every byte offset class): buffers,
+/// truncation of diagnostics and fixed-size assumptions only show beyond a few hundred bytes
+pub fn long_values() -> Vec<String> {
+    let mut v = vec![];
+    for n in [255usize, 256, 399, 400, 401, 1000, 5000] {
+        v.push("a".repeat(n));
+    }
+    for (pre, unit, n) in [("", "é", 300usize), ("x", "é", 300), ("1.0.0-", "é", 600), ("1.2.3+build.", "版", 200), ("", "🚀", 150), ("ab", "日本", 250), ("v1.0.0-", "a1.", 400)] {
+        v.push(format!("{pre}{}", unit.repeat(n)));
+    }
+    v
 }
 
 /// A value for one flag, by flag name.
